@@ -282,3 +282,56 @@ Proof.
   - apply insert_at_split.
   - destruct (index_by_id s (c :: ch)); [apply insert_at_split|]. exists (c :: ch), []. now rewrite app_nil_r.
 Qed.
+
+(* ------------------------------------------------------------------ *)
+(* deep copies: fresh consecutive identities in pre-order, same data_ids *)
+Lemma copy_t_unfold kk dk n id i ch :
+  copy_t kk dk n (T id i ch) =
+  let r := copy_f kk dk (S n) ch in
+  (T n (I (i_obj i) (i_eqc i) (i_hash i) (i_isstr i) (i_name i) (i_did i) (if kk then i_kind i else dk) []) (fst r), snd r).
+Proof.
+  cbn [copy_t]. cbv zeta.
+  assert (E : forall l m, (fix go (n0 : nat) (l0 : list rt) {struct l0} : list rt * nat :=
+               match l0 with
+               | [] => ([], n0)
+               | c :: l' => let (c', n1) := copy_t kk dk n0 c in let (r', n2) := go n1 l' in (c' :: r', n2)
+               end) m l = copy_f kk dk m l).
+  { induction l as [|c l IH]; intros m; cbn [copy_f]; [reflexivity|].
+    destruct (copy_t kk dk m c) as [c' n1]. now rewrite IH. }
+  now rewrite E.
+Qed.
+
+Lemma size_unfold id i ch : size (T id i ch) = S (size_f ch).
+Proof. reflexivity. Qed.
+
+Lemma size_f_cons t f : size_f (t :: f) = size t + size_f f.
+Proof. reflexivity. Qed.
+
+Lemma copy_spec :
+  (forall t kk dk n, n + size t = snd (copy_t kk dk n t) /\ ids_t (fst (copy_t kk dk n t)) = seq n (size t)
+                     /\ rdid (fst (copy_t kk dk n t)) = rdid t /\ (SU (rch t) -> SU (rch (fst (copy_t kk dk n t))))) /\
+  (forall f kk dk n, n + size_f f = snd (copy_f kk dk n f) /\ ids (fst (copy_f kk dk n f)) = seq n (size_f f)
+                     /\ map rdid (fst (copy_f kk dk n f)) = map rdid f /\ (SU f -> SU (fst (copy_f kk dk n f)))).
+Proof.
+  apply rt_forest_ind.
+  - intros id i ch IH kk dk n. rewrite copy_t_unfold. cbv zeta. cbn [fst snd]. destruct (IH kk dk (S n)) as (H1 & H2 & H3 & H4).
+    rewrite size_unfold. refine (conj _ (conj _ (conj _ _))).
+    + rewrite <- H1. lia.
+    + rewrite ids_t_unfold. cbn [rid rch seq]. now rewrite H2.
+    + reflexivity.
+    + cbn [rch]. exact H4.
+  - intros kk dk n. cbn. refine (conj _ (conj _ (conj _ _))); auto.
+  - intros t f IHt IHf kk dk n. cbn [copy_f]. destruct (IHt kk dk n) as (H1 & H2 & H3 & H4).
+    destruct (copy_t kk dk n t) as [c' n1]. cbn [fst snd] in *. destruct (IHf kk dk n1) as (G1 & G2 & G3 & G4).
+    destruct (copy_f kk dk n1 f) as [r' n2]. cbn [fst snd] in *. rewrite size_f_cons. refine (conj _ (conj _ (conj _ _))).
+    + lia.
+    + change (c' :: r') with ([c'] ++ r'). rewrite ids_app. replace (ids [c']) with (ids_t c') by (unfold ids, ids_t; cbn; now rewrite app_nil_r).
+      rewrite H2, G2, seq_app. f_equal. f_equal. lia.
+    + cbn [map]. now rewrite H3, G3.
+    + intros S. constructor.
+      * cbn [map]. rewrite H3, G3. now apply SU_top in S.
+      * intros x [<-|Hx]; [apply H4; apply (SU_child _ t S); now left|].
+        apply (SU_child r' x); [|assumption]. apply G4. constructor.
+        -- apply SU_top in S. cbn [map] in S. now inversion S.
+        -- intros y Hy. apply (SU_child _ y S). now right.
+Qed.
